@@ -18,7 +18,7 @@ FUNCTIONS = ['mofun.atoms.Atoms.save_lmpdat', 'mofun.atoms.Atoms.load_lmpdat', '
 BOUNDS = {'quick': 'N<=2 atoms, <=1 term per kind (symbolic end points and types), 2 atom types and 1-2 types per term kind, orthorhombic and tilted '
                    '(LAMMPS-oriented) cells with symbolic lengths and tilts, both atom styles, coefficient strings from a list of 8 (with/without one '
                    'trailing comment, leading minus, digits only, slashes, many spaces); |coordinates|<1000, |charge|<10',
-          'thorough': 'N<=3 atoms, two kinds of terms at once'}
+          'thorough': 'N<=3 atoms with one term, or two kinds of terms at once on 2 atoms'}
 OUTSIDE = ['field-width overflow for |x| >= 10^4 is covered only by a concrete sub-check (two large coordinates)',
            'coefficient strings with two # characters (outside the property)', 'atom styles other than full/atomic', 'IEEE rounding of the 7th decimal']
 ASSUMPTIONS = ['cell lengths in (1,100), tilts in (-50,50), LAMMPS orientation (upper triangle zero)',
@@ -50,10 +50,11 @@ def instances(tier, seed):
     add("rt:full:terms-without-coefficient-tables", style='full', N=2, terms={'bond': 1, 'angle': 1}, tilt='zero', c0=None, type_hi=3, cost=30)
     add("dispatch:path-and-file", family='dispatch', cost=3)
     add("wide-fields", family='wide', cost=2)
+    add("many-types", family='many', cost=2)
     if tier == 'thorough':
-        add("rt:full:bond+angle:N3:tilted", style='full', N=3, terms={'bond': 1, 'angle': 1}, tilt='sym', c0=3, cost=900)
-        add("rt:atomic:dihedral+improper:N3", style='atomic', N=3, terms={'dihedral': 1, 'improper': 1}, tilt='zero', c0=5, cost=600)
-        add("rt:full:bond2:N3", style='full', N=3, terms={'bond': 2}, tilt='zero', c0=0, cost=900)
+        add("rt:full:bond:N3:tilted", style='full', N=3, terms={'bond': 1}, tilt='sym', c0=3, cost=900)
+        add("rt:atomic:angle:N3", style='atomic', N=3, terms={'angle': 1}, tilt='zero', c0=5, cost=600)
+        add("rt:full:bond+angle:N2:tilted", style='full', N=2, terms={'bond': 1, 'angle': 1}, tilt='sym', c0=0, cost=300)
     return out
 
 
@@ -174,6 +175,8 @@ def body(ctx, p):
         return dispatch_body(ctx, p)
     if fam == 'wide':
         return wide_body(ctx, p)
+    if fam == 'many':
+        return many_body(ctx, p)
     Atoms = ctx.ms.Atoms
     a, sp, cell, kw, ncoef = build(ctx, p)
     style = p['style']
@@ -347,6 +350,33 @@ def dispatch_body(ctx, p):
     finally:
         import shutil
         shutil.rmtree(d)
+
+
+def many_body(ctx, p):
+    """more than nine atom / bond types: ids with two digits must keep their numeric order through a write/read cycle"""
+    Atoms = ctx.ms.Atoms
+    n = 12
+    els = ['C', 'H', 'O', 'N', 'S', 'K', 'Ni', 'Zr', 'Cu', 'Zn', 'F', 'Cl']
+    a = Atoms(atom_types=list(range(n)), positions=[[float(i), 1.0, 2.0] for i in range(n)], atom_type_elements=els,
+              atom_type_labels=[f"L{i}_{e}" for i, e in enumerate(els)], pair_coeffs=[f"lj {i}.5 3.{i}" for i in range(n)],
+              bonds=[(i, i + 1) for i in range(n - 1)], bond_types=list(range(n - 1)), bond_type_coeffs=[f"harmonic {i}.0 1.{i}" for i in range(n - 1)],
+              cell=[[20., 0, 0], [0, 20., 0], [0, 0, 20.]])
+    for style in ('full', 'atomic'):
+        f = io.StringIO()
+        a.save_lmpdat(f, atom_format=style)
+        b = Atoms.load_lmpdat(io.StringIO(f.getvalue()), atom_format=style)
+        ok = (list(b.atom_type_elements) == els and list(b.atom_type_labels) == list(a.atom_type_labels)
+              and all(abs(float(x) - float(y)) < 1e-6 for x, y in zip(b.atom_type_masses, a.atom_type_masses))
+              and [str(x) for x in b.pair_coeffs] == [norm_coeff(s_) for s_ in a.pair_coeffs]
+              and [str(x) for x in b.bond_type_coeffs] == [norm_coeff(s_) for s_ in a.bond_type_coeffs]
+              and [int(t) for t in b.atom_types] == list(range(n)) and [int(t) for t in b.bond_types] == list(range(n - 1)))
+        ctx.require('twelve atom types and eleven bond types keep their ids, masses, labels and coefficient rows', ok, detail=dict(style=style, labels=list(b.atom_type_labels)[:12]))
+        f2 = io.StringIO()
+        b.save_lmpdat(f2, atom_format=style)
+        b2 = Atoms.load_lmpdat(io.StringIO(f2.getvalue()), atom_format=style)
+        f3 = io.StringIO()
+        b2.save_lmpdat(f3, atom_format=style)
+        ctx.require('second and third write are byte-identical (many types)', f2.getvalue() == f3.getvalue())
 
 
 def wide_body(ctx, p):
